@@ -24,7 +24,7 @@ ASSUMPTIONS = [
 ]
 
 _CLIENT = None
-POOL = ["gemini://a/", "gemini://b/", "gemini://c/x", "gemini://d:1966/", "gemini://a/y?q", "gemini://e/"]
+POOL = ["gemini://a/", "gemini://b/", "gemini://c/x", "gemini://d:1966/", "gemini://a/y?q", "gemini://e/", "gemini://a/?p=1", "gemini://a/?p=2", "gemini://c/x/", "gemini://c/./x"]
 ODD_TARGETS = ["", "/relative", "relative/path", "http://a/", "https://b/x", "titan://a/up;size=0", "GEMINI://a/", "gemini:/a", "gemini:a",
                "gemini://", "gemini://u@a/", "gemini://a/#frag", "gemini://a/" + "p" * 1100, "//a/", "gemini://a:99999/", "mailto:x@y", " gemini://a/"]
 
@@ -39,13 +39,10 @@ class Graph(Family):
         urls = POOL[:3]
         outs = [["f", 20], ["e"]] + [["r", 30, t] for t in urls] + [["r", 31, "http://a/"], ["r", 30, ""]]
         count = 0
-        for combo in itertools.product(outs, repeat=3):
-            g = dict(zip(urls, combo))
-            for mx in (0, 1, 2, 3):
-                yield {"max": mx, "start": urls[0], "graph": g, "follow": True}
-                count += 1
-                if count >= n // 2:
-                    break
+        combos = [(combo, mx) for combo in itertools.product(outs, repeat=3) for mx in (0, 1, 2, 3)]
+        for combo, mx in self.share(combos):
+            yield {"max": mx, "start": urls[0], "graph": dict(zip(urls, combo)), "follow": True}
+            count += 1
             if count >= n // 2:
                 break
         for _ in range(n - count):
@@ -167,4 +164,154 @@ class Graph(Family):
         return f"{obs['r'][0]}:{obs['r'][1] if obs['r'][0] == 'error' else ''}:hops={len(obs['conns'])}:follow={case['follow']}"
 
 
-FAMILIES = [Graph()]
+class Live(Family):
+    """the full GeminiClient (TOFU on, temporary pin store) against up to three scripted loopback TLS servers that
+    count TCP connections and log request lines: bound, scheme, pin check on every hop, faults (a server that drops
+    a connection without answering), follow_redirects on/off"""
+
+    name = "live"
+    quick_n = 96
+    thorough_n = 2400
+
+    def gen(self, rng: random.Random, n: int):
+        hosts = ["localhost", "127.0.0.1", "127.0.0.2"]
+        for i in range(n):
+            nh = rng.randint(1, 4)
+            hops = []
+            for j in range(nh):
+                hops.append({"peer": rng.randrange(3), "host": rng.choice(hosts), "path": f"/h{j}" + rng.choice(["", "?q=1", "/x"]), "cert": rng.choice(["ec", "rsa", "ed"])})
+            kind = rng.choice(["chain", "chain", "revisit-swap", "drop", "loop", "nongemini"])
+            case = {"max": rng.randint(0, 4), "follow": rng.random() < 0.85, "hops": hops, "kind": kind, "final": rng.choice([20, 51, 20])}
+            if kind == "revisit-swap" and nh >= 3:
+                # hop 0 and the last hop are the same host:port, which presents another certificate the second time
+                hops[-1]["peer"], hops[-1]["host"] = hops[0]["peer"], hops[0]["host"]
+                hops[-1]["cert"] = "ec2" if hops[0]["cert"] != "ec2" else "rsa"
+            elif kind == "revisit-swap":
+                case["kind"] = "chain"
+            if kind == "drop":
+                case["drop_at"] = rng.randrange(nh)
+            yield case
+
+    def _expected(self, case, ports):
+        """reference walk straight from the property text (independent of the Lean model)"""
+        hops, mx = case["hops"], case["max"]
+        urls = [f"gemini://{h['host']}:{ports[h['peer']]}{h['path']}" for h in hops]
+        conns, pins = [], {}
+        for j, h in enumerate(hops):
+            if case["follow"] and (urls[j] in urls[:j]):
+                return {"r": ["error", "loop"], "conns": conns}
+            if case["follow"] and j > mx:
+                return {"r": ["error", "toomany"], "conns": conns}
+            conns.append(urls[j])
+            key = (h["host"], ports[h["peer"]])
+            if case.get("drop_at") == j and case["kind"] == "drop":
+                return {"r": ["error", "connection"], "conns": conns}
+            if key in pins and pins[key] != h["cert"]:
+                return {"r": ["error", "certchanged"], "conns": conns, "silent": True}
+            pins[key] = h["cert"]
+            last = j == len(hops) - 1
+            if last:
+                if case["kind"] == "loop":
+                    # last hop redirects back to the first URL
+                    if not case["follow"]:
+                        return {"r": ["redirect", 30, urls[0]], "conns": conns}
+                    return {"r": ["error", "loop"], "conns": conns}
+                if case["kind"] == "nongemini":
+                    return {"r": ["redirect", 31, "https://example.org/"], "conns": conns}
+                return {"r": ["final", case["final"]], "conns": conns}
+            if not case["follow"]:
+                return {"r": ["redirect", 30, urls[j + 1]], "conns": conns}
+        return {"r": ["error", "?"], "conns": conns}
+
+    def impl(self, case):
+        import shutil
+        import tempfile
+
+        from nauyaca.client.session import GeminiClient
+        from nauyaca.security.tofu import CertificateChangedError
+
+        from ..sim import client_tlspeer as T
+
+        w = T.world(3, ("rsa", "ec", "ed", "ec2"))
+        peers = w["peers"]
+        ports = [p.port for p in peers]
+        for p in peers:
+            p.clear()
+            p.take_log(2.0)
+        hops = case["hops"]
+        urls = [f"gemini://{h['host']}:{ports[h['peer']]}{h['path']}" for h in hops]
+        for j, h in enumerate(hops):
+            last = j == len(hops) - 1
+            if case["kind"] == "drop" and case.get("drop_at") == j:
+                peers[h["peer"]].push(h["cert"], [["read_request", 1.0], ["close"]])
+                # what a retrying client would get
+                peers[h["peer"]].push(h["cert"], [["read_request", 1.0], ["send", b"20 text/gemini\r\nretried\n"], ["close_notify"]])
+                continue
+            if last:
+                if case["kind"] == "loop":
+                    line = f"30 {urls[0]}\r\n".encode()
+                elif case["kind"] == "nongemini":
+                    line = b"31 https://example.org/\r\n"
+                else:
+                    line = f"{case['final']} text/gemini\r\n".encode() + (b"final\n" if case["final"] == 20 else b"")
+            else:
+                line = f"30 {urls[j + 1]}\r\n".encode()
+            peers[h["peer"]].push(h["cert"], [["read_request", 1.0], ["send", line], ["close_notify"]])
+        d = tempfile.mkdtemp(prefix="nv-c16-")
+        try:
+            async def go():
+                from pathlib import Path
+
+                client = GeminiClient(timeout=5, max_redirects=case["max"], verify_ssl=False, trust_on_first_use=True, tofu_db_path=Path(d) / "tofu.db")
+                try:
+                    r = await client.get(urls[0], follow_redirects=case["follow"])
+                except CertificateChangedError:
+                    return ["error", "certchanged"]
+                except ValueError as ex:
+                    m = str(ex)
+                    return ["error", "loop" if "loop" in m.lower() else "toomany" if "aximum redirects" in m else "valueerror:" + m[:40]]
+                except (ConnectionError, OSError, asyncio.TimeoutError) as ex:
+                    return ["error", "connection"]
+                if 30 <= r.status < 40:
+                    return ["redirect", r.status, r.meta]
+                return ["final", r.status]
+
+            res = asyncio.run(go())
+        finally:
+            shutil.rmtree(d, ignore_errors=True)
+        logs = []
+        for pi, p in enumerate(peers):
+            for e in p.take_log(5.0):
+                logs.append([e["t"], pi, e["hs"], e["rx"].split(b"\r\n")[0].decode("latin1")])
+            p.clear()
+        logs.sort()
+        return {"r": res, "conns": [l[3] for l in logs if l[2]], "tcp": len(logs), "ports": ports,
+                "rx_nonempty": [bool(l[3]) for l in logs if l[2]]}
+
+    def model(self, case):
+        return None   # the Lean model is compared in family graph; here the oracle speaks
+
+    def oracle(self, case, obs):
+        exp = self._expected(case, obs["ports"])
+        if obs["tcp"] > (case["max"] + 1 if case["follow"] else 1):
+            return ("bound", f"{obs['tcp']} TCP connections with max_redirects={case['max']} follow={case['follow']}")
+        for c in obs["conns"]:
+            if c and not c.startswith("gemini://"):
+                return ("scheme", f"requested {c!r}")
+        want_conns = exp["conns"]
+        got = obs["conns"]
+        if exp.get("silent"):
+            # the hop whose certificate changed must have received no request bytes at all
+            if len(got) != len(want_conns) or got[-1] != "" or got[:-1] != want_conns[:-1]:
+                return ("pin-not-checked", f"a pinned host presented another certificate on hop {len(want_conns)}: requests seen {got}, result {obs['r']}")
+        elif got != want_conns:
+            return ("connections", f"connections {got}, expected {want_conns} (result {obs['r']}, expected {exp['r']})")
+        if obs["r"] != exp["r"]:
+            return ("result", f"result {obs['r']}, expected {exp['r']} for {case['kind']} chain of {len(case['hops'])} hops, max {case['max']}")
+        return None
+
+    def key(self, case, obs):
+        return f"{case['kind']}|{obs['r'][0]}:{obs['r'][1]}|tcp{obs['tcp']}|follow{int(case['follow'])}"
+
+
+FAMILIES = [Graph(), Live()]
